@@ -528,6 +528,11 @@ def reduce_sum(t, axis=None):
 
 
 def matmul(a, b):
+    if hasattr(a, "nf") or hasattr(b, "nf"):          # abstract matrix layer
+        from . import matalg
+        A, B = matalg._as_mat_like(a, None), matalg._as_mat_like(b, None)
+        if isinstance(A, matalg.Mat) and isinstance(B, matalg.Mat):
+            return matalg.mat_matmul(A, B)
     a, b = Tensor.lift(a), Tensor.lift(b)
     if a is None or b is None:
         raise Unsupported("matmul with scalar")
